@@ -48,6 +48,7 @@ type Style struct {
 	SpaceBeforeColon bool
 	ColonGap         int               // >0: what stands between a key and its colon: 1 a tab, 2 a line break and the indentation, 3 two blanks
 	ValueNextLine    int               // >0: inside multi-line annotations every ValueNextLine-th rule value stands on the line after its name
+	StrayAnywhere    bool              // stray notes also where the library is known to refuse them (directly after an annotated line): for texts that must be refused in every spelling
 	TightAnn         bool              // no blank between a value and the annotation that follows it
 	TightComments    bool              // end-of-line user comments start right after the value (no blank), every other one as a ### block ###
 	SplitAnn         int               // >0: every SplitAnn-th node with two rules or more (or rules and a note) gets two annotations: a multi-line one closing on the next line and a second one starting on that closing line
@@ -140,7 +141,7 @@ func (p *printer) stray(level int) {
 	for start > 0 && p.b[start-1] != '\n' && p.b[start-1] != '\r' {
 		start--
 	}
-	if prev := string(p.b[start:end]); strings.Contains(prev, "//") || strings.Contains(prev, "/*") || strings.Contains(prev, "*/") || strings.Contains(prev, "#") {
+	if prev := string(p.b[start:end]); !p.st.StrayAnywhere && (strings.Contains(prev, "//") || strings.Contains(prev, "/*") || strings.Contains(prev, "*/") || strings.Contains(prev, "#")) {
 		return
 	}
 	if p.st.StrayNotes > 0 && p.st.EmptyAnn == 0 && !p.afterArr {
